@@ -243,6 +243,8 @@ class Sim:
         self.quiescent = False
         self.limit = None
         self.evc = itertools.count()
+        self.runaway = False
+        self.frame_cap = 10 ** 6
 
     # ---------------------------------------------------------------- set-up
     def build(self):
@@ -383,6 +385,9 @@ class Sim:
             task, delta = tm.get_next_task()
             if task:
                 steps += 1
+                if len(self.frames) > self.frame_cap:
+                    self.runaway = True
+                    break
                 try:
                     tm.process_task(task)
                 except Exception as e:
@@ -397,7 +402,7 @@ class Sim:
                 self.quiescent = True
                 break
             nxt = tm.tasks[0][0]
-            if nxt > limit or steps > 2000000:
+            if nxt > limit:
                 break
             self.now = max(self.now, nxt)
         self.steps = steps
@@ -408,6 +413,18 @@ class Sim:
         if only is not None:
             fs = [f for f in fs if only(f)]
         return '; '.join(fmt_frame(f) for f in fs)
+
+
+def frame_cap(scn):
+    """far more frames than any retransmission schedule can produce: stops a transfer that never ends"""
+    cap = 200 + 40 * len(scn.get('inject', ()))
+    for r in scn['reqs']:
+        c, s = scn['nodes'][r['c']], scn['nodes'].get(r['s'], cfg())
+        R = max(c['retries'], s['retries'])
+        small = max(1, min(c['maxApdu'], s['maxApdu']) - 6)
+        nseg = r['n'] // small + (r['resp'][1] // small if r['resp'][0] == 'complex' else 0) + 8
+        cap += 3 * (R + 1) * (R + 1) * nseg
+    return cap
 
 
 def time_limit(scn):
@@ -433,6 +450,7 @@ def simulate(scn):
         sim = Sim(scn)
         sim.build()
         sim.bound = time_limit(scn)
+        sim.frame_cap = frame_cap(scn)
         sim.run(sim.bound * 2)
         return sim
     finally:
@@ -513,13 +531,16 @@ def check_exceptions(sim):
                     (e['type'], e['what'], e['t'], e['msg'], e['tail'], _excerpt(sim))))
     for k, d in sim.oddities:
         out.append((k, d))
+    if sim.runaway:
+        out.append(('runaway-traffic', "more than %d frames on the wire at t=%.3f and no end (stopped by the harness); last frames: %s" %
+                    (sim.frame_cap, sim.now, '; '.join(fmt_frame(f) for f in sim.frames[-8:]))))
     return out
 
 
 def check_c04(sim):
     """exactly one outcome, in time, no residue, nothing sent afterwards"""
     out = check_exceptions(sim)
-    if not sim.quiescent:
+    if not sim.quiescent and not sim.runaway:
         out.append(('no-quiescence', "tasks still scheduled at the time limit %.1f s: %r; frames: %s" %
                     (sim.limit, [type(t[2]).__name__ for t in sim.tm.tasks[:5]], _excerpt(sim))))
     for rec in sim.records:
@@ -673,9 +694,14 @@ def check_c05(sim, expect=None):
             fault = '%s-of-%s' % (fault, expect[2])
         rec = sim.records[0]
         got = rec['outcomes'][0]['kind'] if rec['outcomes'] else None
+        idx = min(sim.scn.get('faults', {-1: 0}))
+        if got != want and 0 <= idx < len(sim.frames) and sim.frames[idx]['seg'] and not fault.startswith('dup'):
+            h = sim.frames[idx]
+            if not any(f['src'] == h['src'] and f['type'] == h['type'] and f['id'] == h['id'] and f['seg'] and f['seq'] == h['seq'] for f in sim.frames[idx + 1:]):
+                fault += '-never-retransmitted'
         if got != want:
             o = rec['outcomes'][0] if rec['outcomes'] else {}
-            out.append(('single-%s-not-repaired' % fault, "without the fault the outcome is %s; with it: %s (reason %r, from the %s) at t=%.4f; frames: %s" %
+            out.append((('single-%s-not-repaired' % fault).replace('-never-retransmitted-not-repaired', '-never-retransmitted'), "without the fault the outcome is %s; with it: %s (reason %r, from the %s) at t=%.4f; frames: %s" %
                         (want, got, o.get('reason'), 'peer' if o.get('srv') else 'local stack', o.get('t', -1), _excerpt(sim, n=24))))
     return out
 
@@ -712,6 +738,11 @@ def check_c11(sim):
             if o['kind'] in ('simple', 'complex', 'error', 'reject'):
                 if o['kind'] != rec['resp'][0] or (o['kind'] == 'complex' and o['data'] != rec['resp_payload']) or (o['kind'] == 'error' and o['data'] != rec['err_payload']):
                     whose = [r['k'] for r in sim.records if o['data'] and (r['resp_payload'] == o['data'] or r['err_payload'] == o['data'])]
+                    # the answer to an EARLIER request of the same requester to the same peer under the same invoke ID (the application
+                    # used the ID again while the peer was still answering the first one) is indistinguishable on the wire: not a crossing
+                    if any(sim.records[k]['c'] == rec['c'] and sim.records[k]['s'] == rec['s'] and sim.records[k]['apdu'] is not None
+                           and sim.records[k]['apdu'].apduInvokeID == inv and k < rec['k'] for k in whose):
+                        continue
                     out.append(('reply-crossed', "request #%d (%d>%d id=%r, answer %s) was confirmed with %s of %d octets%s; deliveries to it: %s" %
                                 (rec['k'], rec['c'], rec['s'], inv, rec['resp'][0], o['kind'], len(o['data']),
                                  (' which is the answer to request #%s' % whose) if whose else ' which nobody sent as its answer',
@@ -870,14 +901,6 @@ class Collector:
             key = size_of(scn)
             if kind not in self.best or key < self.best[kind][0]:
                 self.best[kind] = (key, describe(scn), detail)
-
-    def merge(self, other_best, evaluations, shapes):
-        self.evaluations += evaluations
-        self.shapes |= shapes
-        for kind, (key, inp, detail) in other_best.items():
-            key = tuple(key)
-            if kind not in self.best or key < self.best[kind][0]:
-                self.best[kind] = (key, inp, detail)
 
     def failures(self):
         return [{'name': k, 'input': v[1][:500], 'detail': v[2][:3000]} for k, v in sorted(self.best.items())]
